@@ -231,7 +231,7 @@ def legacy_fallback(ctx, rule='C15.legacy-fallback'):
     if len(conv) != 1:
         res.append(unresolved(rule, 'From<&OldMeta> for Meta'))
         return res
-    g = conv[0]
+    g = ctx.x(conv[0])        # a constructor the conversion goes through is folded in
     du = ctx.du(g)
     aggs = aggregates_of(g, 'Meta')
     aggs = [(bb, si, s) for bb, si, s in aggs if s['rv']['adt'].endswith('meta::Meta')]
